@@ -213,7 +213,7 @@ func init() {
 
 func init() {
 	Properties["C16"] = PropSpec{
-		Rules: []Rule{MultipleTable, DeadTailIn("validator.go", "values.go", "type.go", "formats.go"), ErrValue, EqualTable, DataWalk, DatumFree, Chain, EnumConvert, Keywords("ParamValidator", simpleKeywords, "param_ctor_calls"), Keywords("HeaderValidator", simpleKeywords, "header_ctor_calls"), Keywords("itemsValidator", simpleKeywords, "items_ctor_calls"), KeywordPosition, HelperField, KeywordGuard,
+		Rules: []Rule{ElementsAll, MultipleTable, DeadTailIn("validator.go", "values.go", "type.go", "formats.go"), ErrValue, EqualTable, DataWalk, DatumFree, Chain, EnumConvert, Keywords("ParamValidator", simpleKeywords, "param_ctor_calls"), Keywords("HeaderValidator", simpleKeywords, "header_ctor_calls"), Keywords("itemsValidator", simpleKeywords, "items_ctor_calls"), KeywordPosition, HelperField, KeywordGuard,
 			Narrow, Orderings, OrderingsTyped, Pure, TypeTable, AppliesTable, KeywordPred, ArgRole,
 			PanicInventory([]string{"NewParamValidator", "NewHeaderValidator", "(*ParamValidator).Validate", "(*HeaderValidator).Validate"}, []DynEntry{
 				{Func: "(*ParamValidator).Validate", DataArg: 1}, {Func: "(*HeaderValidator).Validate", DataArg: 1}, {Func: "(*itemsValidator).Validate", DataArg: 2},
